@@ -1,12 +1,112 @@
+/-
+  C07 — Bad-encoding fraud proofs are sound and complete.   PROPERTY THEOREMS ONLY.
+
+  Model: `Lumina/Model/Befp.lean` (`validate` = `BadEncodingFraudProof::validate` as it is after the three `fix:`
+  commits eb5a49a, 0ccaf23, 93ec7dd; `validateUnfixed` = before).  Spec: `Lumina/Spec/C07.lean`.
+  Parameters: the hash `H` (idealised: `HashOK`), the Reed–Solomon codec `C` (its decoder is assumed to recover a codeword
+  from any half: `RecOK`; for whole honest blocks additionally linear, so that every axis is a codeword: C08).
+-/
 import Lumina.Gen.C07
-import Lumina.Model.Befp
+import Lumina.Proofs.BefpSound
 import Lumina.Spec.C07
 
 namespace Lumina.Props.C07
+open Lumina.Util Lumina.Model.Nmt Lumina.Model.Eds Lumina.Model.EdsCode Lumina.Model.Befp
+open Lumina.Model.Decoders (Befp ShareWithProof)
+open Lumina.Proofs.Nmt Lumina.Proofs.EdsCode Lumina.Proofs.EdsExtend Lumina.Proofs.EdsLinear Lumina.Proofs.EdsCodeword
+open Lumina.Proofs.Befp Lumina.Proofs.BefpSound
+open Lumina.Spec.C07 (specValidate Obs)
 
 theorem consts_eq :
     Lumina.Gen.C07.SHARE_SIZE = 512 ∧ Lumina.Gen.C07.SHARE_SIZE = Lumina.Model.Eds.SHARE_SIZE ∧
     Lumina.Gen.C07.NS_SIZE = 29 ∧ Lumina.Gen.C07.NS_SIZE = Lumina.Model.Nmt.NS_SIZE ∧
-    Lumina.Model.Decoders.NMT_LEAF_SIZE = 541 := by decide
+    Lumina.Model.Decoders.NMT_LEAF_SIZE = 541 ∧ LEOPARD_ORDER = 256 := by decide
+
+/-- **Soundness, per axis.**  The header commits (through `DataAvailabilityHeader::from_eds`) to a square accepted by
+    `ExtendedDataSquare::new`.  If the row/column a fraud proof indicates is a Reed–Solomon codeword, the proof does not
+    validate — for EVERY proof: any shares, any inclusion proofs, any positions (permuted, duplicated, substituted),
+    any claimed namespaces, any mix of proof axes, any height and index. -/
+theorem befp_sound {H : HashFn} (hk : HashOK H) (C : Codec) {ver : Nat} {X : List Bytes} {e : Eds}
+    (hnew : edsNew ver X = .ok e) {dah : Dah} (hd : Dah.ofEds H e = .ok dah) (p : Befp) (hwf : BefpWF p) (hh : Nat)
+    (hcw : p.index < e.width → IsCodeword C.enc (e.width / 2) (axisData e X p.axis p.index) ∧
+      RecOK C (e.width / 2) (axisData e X p.axis p.index)) :
+    validate H C p hh dah ≠ .ok () :=
+  validate_rejects_codeword hk C (edsNew_ok hnew) hd p hwf hh hcw
+
+/-- **For an honestly encoded block no fraud proof validates.**  The block is what `from_ods` builds with a linear
+    encoder whose decoder recovers codewords (the Reed–Solomon hypotheses of C08): every row and column is a codeword
+    (C08 `axes_codewords`), so `befp_sound` applies to whatever axis the proof indicates. -/
+theorem befp_sound_honest_block {H : HashFn} (hk : HashOK H) (C : Codec) {ver : Nat} {ods : List Bytes} {e : Eds}
+    (hs : EncShape C.enc (isqrt ods.length)) (L : EncLinear C.enc (isqrt ods.length) 512)
+    (hrec : ∀ cw, IsCodeword C.enc (isqrt ods.length) cw → RecOK C (isqrt ods.length) cw)
+    (hf : fromOds C.enc ver ods = .ok e) {dah : Dah} (hd : Dah.ofEds H e = .ok dah)
+    (p : Befp) (hwf : BefpWF p) (hh : Nat) :
+    validate H C p hh dah ≠ .ok () := by
+  have x := extOK hs hf
+  have hlen : ∀ s ∈ ods, s.length = 512 := x.ods_size
+  generalize isqrt ods.length = k at x hs L hrec
+  apply validate_rejects_codeword hk C x.newOK hd p hwf hh
+  intro hidx
+  have hi2 : p.index < 2 * k := by rw [← x.width]; exact hidx
+  have hk2 : e.width / 2 = k := by rw [x.width]; omega
+  have hdata : axisData e (extGrid C.enc k ods) p.axis p.index =
+      (match p.axis with | .row => extRow C.enc k ods p.index | .col => extCol C.enc k ods p.index) := by
+    unfold axisData
+    cases p.axis with
+    | row =>
+      simp only [lineCells, List.map_map, extRow, x.width]
+      apply List.map_congr_left
+      intro c hc
+      simp only [Function.comp_apply, cell, axisCoord]
+      exact extGrid_getD C.enc k ods hi2 (List.mem_range.mp hc)
+    | col =>
+      simp only [lineCells, List.map_map, extCol, x.width]
+      apply List.map_congr_left
+      intro r hr
+      simp only [Function.comp_apply, cell, axisCoord]
+      exact extGrid_getD C.enc k ods (List.mem_range.mp hr) hi2
+  have hcw := axes_codewords hs L x.sq hlen hi2
+  have : IsCodeword C.enc k (axisData e (extGrid C.enc k ods) p.axis p.index) := by
+    rw [hdata]
+    cases p.axis with
+    | row => exact hcw.1
+    | col => exact hcw.2
+  rw [hk2]
+  exact ⟨this, hrec _ this⟩
+
+/-- what is observed of an outcome -/
+def obsOf : Except BErr Unit → Obs
+  | .ok () => .ok
+  | .error .panic => .panic
+  | .error (.rangeProof .panic) => .panic
+  | .error _ => .err
+
+/-- the soundness half of the spec checker holds of the model's outcome whenever the call does not panic (the
+    panic-freedom of the proof verification itself is C16's subject) -/
+theorem befp_spec_sound {H : HashFn} (hk : HashOK H) (C : Codec) {ver : Nat} {X : List Bytes} {e : Eds}
+    (hnew : edsNew ver X = .ok e) {dah : Dah} (hd : Dah.ofEds H e = .ok dah) (p : Befp) (hwf : BefpWF p) (hh : Nat)
+    (hidx : p.index < e.width)
+    (hcw : Lumina.Spec.C07.isCodeword C.enc (axisData e X p.axis p.index) = true)
+    (hrec : RecOK C (e.width / 2) (axisData e X p.axis p.index))
+    (hnp : obsOf (validate H C p hh dah) ≠ .panic) (honest : Bool) :
+    specValidate C.enc (some (axisData e X p.axis p.index)) honest (obsOf (validate H C p hh dah)) = true := by
+  have hn := edsNew_ok hnew
+  have hlen : (axisData e X p.axis p.index).length = e.width := by simp [axisData, lineCells]
+  obtain ⟨j, hj1, _, hj⟩ := hn.pow
+  have hw2 : 2 * (e.width / 2) = e.width := by
+    obtain ⟨j', rfl⟩ : ∃ j', j = j' + 1 := ⟨j - 1, by omega⟩
+    rw [hj, Nat.pow_succ]; omega
+  have hcw' : IsCodeword C.enc (e.width / 2) (axisData e X p.axis p.index) := by
+    simp only [Lumina.Spec.C07.isCodeword, hlen, Bool.and_eq_true, beq_iff_eq] at hcw
+    exact ⟨by rw [hlen]; exact hw2.symm, hcw.2⟩
+  have hne := befp_sound hk C hnew hd p hwf hh (fun _ => ⟨hcw', hrec⟩)
+  simp only [specValidate, hcw, ↓reduceIte, Bool.and_eq_true, bne_iff_ne, ne_eq]
+  refine ⟨hnp, ?_⟩
+  cases hv : validate H C p hh dah with
+  | ok u => exact (hne (by rw [hv])).elim
+  | error er => cases er with
+    | validation => simp [obsOf]
+    | panic => simp [obsOf]
+    | rangeProof e' => cases e' <;> simp [obsOf]
 
 end Lumina.Props.C07
